@@ -1999,7 +1999,12 @@ class tensor:
         if not first:
             Y, X = X, Y
         data = function_handle(X, Y)
-        copy = False
+        # A function that hands back one of its arguments must not make the result
+        # share storage with an operand
+        copy = bool(
+            isinstance(data, np.ndarray)
+            and (np.may_share_memory(data, X) or np.may_share_memory(data, Y))
+        )
         if not self._matches_order(data):
             copy = True
             logging.warning(
@@ -2043,7 +2048,8 @@ class tensor:
                 X[i + 1, :] = np.reshape(an_input.data, (np.prod(sz)), order=self.order)
         data = function_handle(X)
         data = np.reshape(data, sz, order=self.order)
-        Z = ttb.tensor(data, copy=False)
+        # A function that hands back its argument must not make the result alias self
+        Z = ttb.tensor(data, copy=bool(np.may_share_memory(data, self.data)))
         return Z
 
     def _tt_to_tensor(
